@@ -6,3 +6,6 @@ pub mod utils;
 mod error;
 mod model;
 mod yaserde_tests;
+
+#[cfg(feature = "verif")]
+pub mod verif;
